@@ -21,7 +21,7 @@ def build_probe(ctx):
 
 def run_cases(ctx, cases, tag, shards=4, timeout=900):
     """Run the cases; runs that hit the driver's deadline without the 'stuck' pattern (slow host)
-    are repeated alone with longer deadlines; still not ending -> inconclusive."""
+    are repeated alone with longer deadlines; still not ending after 60 s -> counted as stuck."""
     obs = _run_cases(ctx, cases, tag, shards, timeout)
     for attempt, dl in enumerate((15000, 60000)):
         slow = [(i, o) for i, o in enumerate(obs) if o.get("timeout")]
@@ -41,10 +41,12 @@ def run_cases(ctx, cases, tag, shards=4, timeout=900):
         for (i, o), n in zip(slow, new):
             n["rep"] = o["rep"]
             obs[i] = n
-    slow = [o for o in obs if o.get("timeout")]
-    if slow:
-        raise vlib.Inconclusive("run does not end within 60 s although no tracee waits for the tracer: %s (%s)" % (
-            slow[0].get("raw"), slow[0].get("stuckat")))
+    # three attempts (4 s, 15 s, 60 s) of a program that needs milliseconds and none ended: the run
+    # makes no progress; judged like a stuck run
+    for o in obs:
+        if o.get("timeout"):
+            o["stuck"] = True
+            o["stuckat"] = "no end within 60 s in 3 attempts; tracees: %s" % o.get("stuckat")
     return obs
 
 
